@@ -14,6 +14,7 @@ CONSTANTS
  AnisoPairs = TRUE
  AnisoRewind = TRUE
  AnisoDupFaces = 12
+ LifeMaxPre = 4
 SPECIFICATION Spec
 VIEW View
 INVARIANT TypeOK
